@@ -352,8 +352,82 @@ static void run_stop_race(const std::vector<long> &op, bool use_pool) {
     vh::print_obs({0, returned, far_state});
 }
 
+// op [5 fl mask o1..ok]: sleepers at t0 + o_i ms; the worker is blocked on the FIRST deadline (it has passed the
+// "sched_wait" point after the first schedule call); the sleepers selected by mask are cancelled from this thread while it
+// is blocked (remove() pops / empties them without notifying); then every deadline passes.
+// observation: status, number of sleeps that were seen completed BEFORE their own time point, final state of each sleep
+static std::atomic<long> sd_visits{0};
+static void count_point(const char *id) {
+    if (std::strcmp(id, "sched_wait") == 0) sd_visits.fetch_add(1);
+}
+
+static void run_cancel_blocked(const std::vector<long> &op) {
+    bool use_pool = op[1] == 1;
+    long mask = op[2];
+    size_t k = op.size() - 3;
+    std::unique_ptr<thread_pool> pool;
+    if (use_pool) pool.reset(new thread_pool(2));
+    std::vector<std::unique_ptr<future<void>>> futs(k);
+    std::vector<tp_t> tps(k);
+    std::vector<int> ids(k);
+    std::vector<long> state(k, 0);
+    long early = 0;
+    std::thread thr;
+    sd_visits.store(0);
+    cocls::verif::get_hooks().point = &count_point;
+    {
+        scheduler sch;
+        if (use_pool) sch.start(*pool); else sch.start(thr);
+        // the worker is idle on the empty heap
+        for (int i = 0; i < 2000 && sd_visits.load() < 1; i++) std::this_thread::sleep_for(std::chrono::milliseconds(1));
+        long v0 = sd_visits.load();
+        auto t0 = std::chrono::system_clock::now();
+        for (size_t i = 0; i < k; i++) {
+            tps[i] = t0 + std::chrono::milliseconds(op[3 + i]);
+            futs[i].reset(new future<void>(sch.sleep_until(tps[i], &ids[i])));
+            if (i == 0)   // the worker has looked at the heap again: it now waits for the first deadline
+                for (int j = 0; j < 150 && sd_visits.load() <= v0; j++) std::this_thread::sleep_for(std::chrono::milliseconds(1));
+        }
+        std::this_thread::sleep_for(std::chrono::milliseconds(5));     // ... and has entered wait_until
+        for (size_t i = 0; i < k; i++)
+            if (mask & (1L << i)) { bool c = sch.cancel(&ids[i]); (void)c; }
+        auto limit = tps[k - 1] + std::chrono::milliseconds(1500);
+        size_t done = 0;
+        std::vector<bool> seen(k, false);
+        while (done < k && std::chrono::system_clock::now() < limit) {
+            for (size_t i = 0; i < k; i++) {
+                if (seen[i] || !futs[i]->ready()) continue;
+                seen[i] = true; done++;
+                state[i] = status_of(*futs[i]);
+                if (state[i] == 1 && std::chrono::system_clock::now() < tps[i]) early++;
+            }
+            std::this_thread::sleep_for(std::chrono::microseconds(500));
+        }
+    }
+    cocls::verif::get_hooks().point = nullptr;
+    if (thr.joinable()) thr.join();
+    std::vector<long> v{0, early};
+    v.insert(v.end(), state.begin(), state.end());
+    vh::print_obs(v);
+}
+
+static bool cancel_blocked_ok(const std::vector<long> &op) {
+    if (op.size() < 5 || op.size() > 7 || op[0] != 5 || (op[1] != 0 && op[1] != 1)) return false;
+    long prev = 0;
+    for (size_t i = 3; i < op.size(); i++) {
+        if (op[i] < prev + 200) return false;
+        prev = op[i];
+    }
+    if (prev > 1000) return false;
+    return op[2] >= 0 && op[2] < (1L << (op.size() - 3));
+}
+
 static void run_thread(const vh::Case &cs) {
     for (auto &op : cs.ops) {
+        if (!op.empty() && op[0] == 5) {
+            if (cancel_blocked_ok(op)) run_cancel_blocked(op); else vh::print_obs({1});
+            continue;
+        }
         if (op.size() == 2 && (op[0] == 2 || op[0] == 4) && (op[1] == 0 || (op[1] >= 10000 && op[1] <= 100000))) {
             run_stop_race(op, op[0] == 4);
             continue;
